@@ -76,3 +76,8 @@ chk("C14",
     "Complete enumeration of cache-name assignments x entry sets x backend pairings x request perturbations through an in-process RoundTripper, a body cut / body read failure injected at EVERY byte offset of the exported stream, and every type-registration sequence up to length 4 evaluated in a fresh process each; importer contents are compared with the exporter's.",
     "Trusted: net/http's Handler/Request plumbing, encoding/gob. Entry sets beyond two entries per cache and type pools beyond the four listed types are not explored.",
     "exhaustive input and fault-position enumeration on the implementation (fresh-process enumeration for the hash)", "DESIGN.md §C14")
+
+chk("C16",
+    "For every small client program (every unordered pair of 13 backend operations x 3 backends x 3 strategies, every pair of InvalidationIndex operations, Failover/FailoverOf Get pairs incl. background builds, Invalidate pairs; thorough: triples) ALL interleavings of the program's synchronisation operations within the bound are executed in a -race build under the controlled scheduler, whose hand-offs are invisible to the detector (plain words touched only from //go:norace code); Go's race detector decides each execution.",
+    "Trusted: Go race detector (happens-before, Go memory model) with report suppression disabled; invisibility of the hand-off (probed, DESIGN §2.6). Abstraction: 4 shards. Larger client programs are not explored. Known findings are matched on the exact unordered pair of racing bool64/cache functions.",
+    "stateless model checking of the implementation (DFS over schedules, HB caching) with the race detector as per-execution oracle", "DESIGN.md §C16")
